@@ -3,6 +3,7 @@ package main
 import (
 	"fmt"
 	"go/constant"
+	"go/token"
 	"go/types"
 	"strings"
 
@@ -63,28 +64,53 @@ func entryOwnTypeRule(r *Report, p *Prog, rule string, file string) int {
 				// where does the value come from?
 				v := st.Val
 				inLoop := func(bb *ssa.BasicBlock) bool { return l.body[bb] || bb == l.header }
-				fresh, why := false, ""
-				switch x := v.(type) {
-				case *ssa.Call:
-					fresh = inLoop(x.Block())
-					why = "result of a call made in the loop"
-				case *ssa.UnOp:
-					if al, ok := x.X.(*ssa.Alloc); ok {
-						if inLoop(al.Block()) {
-							fresh, why = true, "a local of the loop body"
-						} else if al.Referrers() != nil {
-							for _, ref := range *al.Referrers() {
-								if s2, ok := ref.(*ssa.Store); ok && s2.Addr == ssa.Value(al) && inLoop(s2.Block()) {
-									if c, ok := s2.Val.(*ssa.Call); ok && inLoop(c.Block()) {
-										fresh, why = true, "assigned from a call in the loop"
-									}
-								}
+				var isFresh func(v ssa.Value, d int) (bool, string)
+				isFresh = func(v ssa.Value, d int) (bool, string) {
+					if d > 5 {
+						return false, ""
+					}
+					switch x := v.(type) {
+					case *ssa.Call:
+						return inLoop(x.Block()), "result of a call made in the loop"
+					case *ssa.Const:
+						return true, "the zero type"
+					case *ssa.Phi:
+						for _, e := range x.Edges {
+							if ok, _ := isFresh(e, d+1); !ok {
+								return false, ""
 							}
 						}
+						return true, "every incoming value is made in the loop"
+					case *ssa.UnOp:
+						al, ok := x.X.(*ssa.Alloc)
+						if !ok || al.Referrers() == nil {
+							return false, ""
+						}
+						// a local: every whole-value store into it that can reach this
+						// use must itself be fresh (a copy of a template made before
+						// the loop still shares the template's map)
+						stores := 0
+						for _, ref := range *al.Referrers() {
+							s2, ok := ref.(*ssa.Store)
+							if !ok || s2.Addr != ssa.Value(al) {
+								continue
+							}
+							if !inLoop(s2.Block()) && !inLoop(al.Block()) {
+								continue // initialisation of a variable declared before the loop
+							}
+							stores++
+							if ok, _ := isFresh(s2.Val, d+1); !ok {
+								return false, ""
+							}
+						}
+						if stores == 0 {
+							return false, ""
+						}
+						return true, "a local assigned in the loop from values made in the loop"
 					}
-				case *ssa.Const:
-					fresh, why = true, "the zero type"
+					return false, ""
 				}
+				fresh, why := isFresh(v, 0)
 				if fresh {
 					r.ok(rule, key, p.pos(st.Pos()), why)
 				} else {
@@ -249,5 +275,116 @@ func handedOutCopiedRule(r *Report, p *Prog, rule string) {
 		r.bad(rule, key, p.pos(f.Pos()), "an entry of the shared table is returned after the lock is released with its maps still shared ("+strings.Join(bad, "; ")+"): what one caller adds to the attributes of the version or of a requirement it was given shows up in the answers to every other caller, and concurrent callers race on the maps")
 	default:
 		r.ok(rule, key, p.pos(f.Pos()), "every return of a found entry follows AttrSet.Clone() and a rebuilt requirement slice")
+	}
+}
+
+// bundleKeyResolvedRule (C18.k BUNDLE-KEY-RESOLVED): bundleDependencies lists
+// KEYS of the dependency tables. For an aliased dependency ("al": "npm:@s/a@^1")
+// the key is the alias, not a package: the four dependency sections decode the
+// alias into a requirement on the real name that carries KnownAs, and the
+// requirement built from a bundleDependencies key has to go through the same
+// decoding, or it names a package that does not exist (or an unrelated one).
+// In the loop over GetBundleDependencies the stored package name is not the
+// key on every path: it can come from a map lookup (the alias table).
+func bundleKeyResolvedRule(r *Report, p *Prog, rule string) {
+	f := p.lookupFn("resolve.flattenNPMDeps")
+	key := "resolve.flattenNPMDeps: a bundleDependencies key is resolved through the alias table"
+	if f == nil {
+		r.bad(rule, key, "", "flattenNPMDeps not found: anchor lost")
+		return
+	}
+	// the loop that ranges over GetBundleDependencies()
+	var keys *ssa.Call
+	for _, b := range f.Blocks {
+		for _, in := range b.Instrs {
+			if c, ok := in.(*ssa.Call); ok && c.Common().StaticCallee() != nil && c.Common().StaticCallee().Name() == "GetBundleDependencies" {
+				keys = c
+			}
+		}
+	}
+	if keys == nil {
+		r.bad(rule, key, p.pos(f.Pos()), "no call of GetBundleDependencies: anchor lost")
+		return
+	}
+	derivesFromKeys := func(v ssa.Value) bool {
+		for d := 0; d < 4 && v != nil; d++ {
+			switch x := v.(type) {
+			case *ssa.UnOp:
+				v = x.X
+			case *ssa.IndexAddr:
+				v = x.X
+			case *ssa.Index:
+				v = x.X
+			default:
+				return v == ssa.Value(keys)
+			}
+		}
+		return v == ssa.Value(keys)
+	}
+	var viaMap func(v ssa.Value, d int) bool
+	viaMap = func(v ssa.Value, d int) bool {
+		if d > 5 {
+			return false
+		}
+		switch x := v.(type) {
+		case *ssa.Phi:
+			for _, e := range x.Edges {
+				if viaMap(e, d+1) {
+					return true
+				}
+			}
+		case *ssa.Extract:
+			_, ok := x.Tuple.(*ssa.Lookup)
+			return ok
+		case *ssa.Lookup:
+			return true
+		}
+		return false
+	}
+	found := 0
+	var bad token.Pos
+	for _, b := range f.Blocks {
+		for _, in := range b.Instrs {
+			st, ok := in.(*ssa.Store)
+			if !ok {
+				continue
+			}
+			fa, ok := st.Addr.(*ssa.FieldAddr)
+			if !ok {
+				continue
+			}
+			pt, ok := fa.X.Type().Underlying().(*types.Pointer)
+			if !ok {
+				continue
+			}
+			stt, ok := pt.Elem().Underlying().(*types.Struct)
+			if !ok || stt.Field(fa.Field).Name() != "Name" || !strings.HasSuffix(pt.Elem().String(), "resolve.PackageKey") {
+				continue
+			}
+			// a name that (on some path) is a bundleDependencies key
+			isKey := derivesFromKeys(st.Val)
+			if ph, ok := st.Val.(*ssa.Phi); ok {
+				for _, e := range ph.Edges {
+					if derivesFromKeys(e) {
+						isKey = true
+					}
+				}
+			}
+			if !isKey {
+				continue
+			}
+			found++
+			if !viaMap(st.Val, 0) {
+				bad = st.Pos()
+			}
+		}
+	}
+	switch {
+	case found == 0:
+		r.bad(rule, key, p.pos(keys.Pos()), "no requirement is built from the bundleDependencies keys: anchor lost")
+	case bad.IsValid():
+		r.bad(rule, key, p.pos(bad), "the key is stored as the package name as it is: when bundleDependencies names an aliased dependency by its key (\"al\": \"npm:@s/a@^1\"), the bundle-scope requirement is placed on a package called like the alias, which does not exist or is unrelated, instead of on the real package known as the alias")
+	default:
+		r.ok(rule, key, p.pos(keys.Pos()), "the stored name can come from a lookup in the alias table")
 	}
 }
